@@ -318,6 +318,124 @@ func craftedKeys() []*big.Int {
 	}
 }
 
+// prefixSweep: path arithmetic at every split position. For every length L of the common prefix of two 251-bit keys
+// (L = 0..250) and three bit patterns of the keys (all ones, alternating, a hash-like constant; high bits set so that
+// carries across the 64-bit words of a path matter): a third key that splits off higher up (when L > 0); every order of
+// inserting the keys (one commit each, trie re-opened), then every single delete and every pair of deletes, the root
+// compared with the reference commitment after every step. A delete collapses a binary node and merges two edges, so
+// the lengths of both merged paths take every value.
+func prefixSweep(r *ev.Run, im impl, poseidon bool) int {
+	label := fmt.Sprintf("%s h=251 %s", im.name, hashName(poseidon))
+	one := big.NewInt(1)
+	full := new(big.Int).Sub(new(big.Int).Lsh(one, 251), one)
+	alt, _ := new(big.Int).SetString("2aaaaaaaaaaaaaaaaaaaaaaaaaaaaaaaaaaaaaaaaaaaaaaaaaaaaaaaaaaaaaa", 16)
+	hashy, _ := new(big.Int).SetString("49ee3eba8c1600700ee1b87eb599f16716b0b1022947733551fde4050ca6804", 16)
+	hf := reftrie.Pedersen
+	if poseidon {
+		hf = reftrie.Poseidon
+	}
+	type cas struct {
+		pat  int
+		l    int
+		keys []*big.Int
+	}
+	var cases []cas
+	for pi, base := range []*big.Int{full, alt, hashy} {
+		for l := 0; l <= 250; l++ {
+			// k1 = base; k2 = base with bit (250-l) flipped and the bits below it complemented: common prefix exactly l bits
+			k1 := new(big.Int).Set(base)
+			low := new(big.Int).Sub(new(big.Int).Lsh(one, uint(250-l)), one)
+			k2 := new(big.Int).Xor(base, new(big.Int).Lsh(one, uint(250-l)))
+			k2.Xor(k2, low)
+			ks := []*big.Int{k1, k2}
+			if l > 0 {
+				// k3 shares only the first l/2 bits
+				m := l / 2
+				k3 := new(big.Int).Xor(base, new(big.Int).Lsh(one, uint(250-m)))
+				ks = append(ks, k3)
+			}
+			cases = append(cases, cas{pi, l, ks})
+		}
+	}
+	var steps int64
+	var mu sync.Mutex
+	ev.Par(len(cases), 14, func(ci int) {
+		c := cases[ci]
+		n := len(c.keys)
+		perms := [][]int{{0, 1}, {1, 0}}
+		if n == 3 {
+			perms = [][]int{{0, 1, 2}, {0, 2, 1}, {1, 0, 2}, {1, 2, 0}, {2, 0, 1}, {2, 1, 0}}
+		}
+		var local int64
+		for _, perm := range perms {
+			// delete sets: every non-empty proper subset, in index order and reversed
+			for mask := 1; mask < 1<<n; mask++ {
+				for _, rev := range []bool{false, true} {
+					d := memory.New()
+					var root felt.Felt
+					live := map[int]bool{}
+					check := func(step string) bool {
+						var kvs []reftrie.KV
+						for i := range live {
+							kvs = append(kvs, reftrie.KV{K: c.keys[i], V: chain.FV(uint64(100 + i))})
+						}
+						want := reftrie.Root(kvs, 251, hf)
+						local++
+						if !root.Equal(&want) {
+							r.Violate("trie-root-differs-from-commitment "+label+" prefix-sweep", map[string]any{"pattern": c.pat, "common_prefix_bits": c.l, "insert_order": perm,
+								"delete_mask": mask, "reverse": rev, "step": step, "got": root.String(), "want": want.String()})
+							return false
+						}
+						return true
+					}
+					ok := true
+					write := func(i int, v felt.Felt, step string) {
+						if !ok {
+							return
+						}
+						var k felt.Felt
+						k.SetBigInt(c.keys[i])
+						nr, err := im.apply(d, 251, poseidon, root, []kv{{k, v}})
+						if err != nil {
+							r.Violate("trie-op-fails "+label, map[string]any{"common_prefix_bits": c.l, "step": step, "err": err.Error()})
+							ok = false
+							return
+						}
+						root = nr
+						ok = check(step)
+					}
+					for _, i := range perm {
+						live[i] = true
+						write(i, chain.FV(uint64(100+i)), fmt.Sprintf("insert key %d", i))
+					}
+					var dels []int
+					for i := 0; i < n; i++ {
+						if mask>>i&1 == 1 {
+							dels = append(dels, i)
+						}
+					}
+					if rev {
+						for a, b := 0, len(dels)-1; a < b; a, b = a+1, b-1 {
+							dels[a], dels[b] = dels[b], dels[a]
+						}
+					}
+					if rev && len(dels) < 2 {
+						continue
+					}
+					for _, i := range dels {
+						delete(live, i)
+						write(i, felt.Zero, fmt.Sprintf("delete key %d", i))
+					}
+				}
+			}
+		}
+		mu.Lock()
+		steps += local
+		mu.Unlock()
+	})
+	return int(steps)
+}
+
 // exploreCrafted: height 251, all ordered sequences of distinct keys up to maxLen inserted one commit each,
 // then deleted in forward and reverse order; root checked after every step on both hash functions.
 func exploreCrafted(r *ev.Run, im impl, maxLen int, poseidon bool) int {
